@@ -747,6 +747,7 @@ func zsBounds(thorough bool) mcrt.Bounds {
 	b[mcrt.Switch] = 1
 	b[mcrt.Time] = 1
 	b[mcrt.Fault] = 1
+	b[mcrt.Order] = 1 // one map iteration (runner table) in a non-default order
 	if thorough {
 		b[mcrt.Preempt] = 2
 		b[mcrt.Switch] = 2
